@@ -246,3 +246,70 @@ async fn assumed_scheme_decides_tls() {
         }
     }
 }
+
+/// tls.sni_is_host with a caller-supplied Host header [C12]: the name offered and checked is the host of the
+/// request URI, never the Host header
+#[tokio::test]
+async fn sni_ignores_host_header() {
+    for (uri, host_hdr, sni) in [
+        ("https://example.com/", "internal.test", Some("example.com")),
+        ("wss://example.com:8443/x", "evil.example:8443", Some("example.com")),
+        ("https://127.0.0.1/", "example.com", None),
+    ] {
+        let mut parts = parts_for(uri).expect(uri);
+        parts.headers.insert(http::header::HOST, host_hdr.parse().unwrap());
+        let (caller, wire) = drive(parts).await;
+        assert_eq!(wire, Wire::ClientHello { sni: sni.map(str::to_owned) }, "{uri} with Host: {host_hdr}");
+        assert_ne!(caller, Caller::Panicked, "{uri}");
+    }
+}
+
+/// A.tls.scheme (bounded stand-in for `TlsTransport::call`, class A) [C12]: with a TLS configuration an https/wss
+/// request to ANY syntactically valid host either starts a TLS handshake or fails - nothing else is ever written
+/// to the transport and the caller never gets a plaintext stream; other schemes are not wrapped.
+#[tokio::test]
+async fn standin_scheme_never_plain() {
+    use crate::client::conn::transport::TlsTransport;
+    use crate::info::HasTlsConnectionInfo as _;
+    fixtures::tls_install_default();
+    for scheme in ["https", "wss", "http", "ws"] {
+        for host in HOSTS {
+            for port in ["", ":8443"] {
+                let uri = format!("{scheme}://{host}{port}/p");
+                let Some(parts) = parts_for(&uri) else { continue };
+                let secure = scheme == "https" || scheme == "wss";
+                let (client, incoming) = crate::stream::duplex::pair();
+                let mut transport = TlsTransport::new(DuplexTransport::new(16 * 1024, client))
+                    .with_tls(Arc::new(fixtures::tls_client_config()));
+                let caller = tokio::spawn(async move {
+                    let fut = tower::Service::call(&mut transport, parts);
+                    tokio::time::timeout(Duration::from_millis(150), fut).await
+                });
+                let peer = tokio::spawn(async move {
+                    let mut incoming = incoming.fuse();
+                    let io = match tokio::time::timeout(Duration::from_millis(100), incoming.next()).await {
+                        Ok(Some(Ok(io))) => io,
+                        _ => return None,
+                    };
+                    let acceptor = tokio_rustls::LazyConfigAcceptor::new(rustls::server::Acceptor::default(), io);
+                    Some(matches!(tokio::time::timeout(Duration::from_millis(100), acceptor).await, Ok(Ok(_))))
+                });
+                let wire = peer.await.unwrap();
+                let got = caller.await;
+                let got = match got { Err(e) if e.is_panic() => panic!("{uri}: connect panicked"), Err(e) => panic!("{e}"), Ok(g) => g };
+                if secure {
+                    assert_ne!(wire, Some(false), "{uri}: something other than a TLS ClientHello was sent for a secure scheme");
+                    if let Ok(Ok(stream)) = &got {
+                        assert!(stream.tls_info().is_some(), "{uri}: the caller received a plaintext stream for a secure scheme");
+                    }
+                    if wire.is_none() {
+                        assert!(matches!(got, Ok(Err(_))), "{uri}: nothing dialled but no error reported");
+                    }
+                } else {
+                    let stream = got.expect("plain connect completes").expect("plain connect succeeds");
+                    assert!(stream.tls_info().is_none(), "{uri}: a non-TLS scheme was wrapped");
+                }
+            }
+        }
+    }
+}
